@@ -1,5 +1,919 @@
-//! H2: scheduled multi-threaded executions (filled in later).
+//! H2: multi-threaded programs over the real crate under a deterministic scheduler.
+//!
+//! Exactly one managed thread runs at a time.  Every shim call of the crate (atomics of
+//! the lock and of the signals, fences, park / unpark, yield, sleep, clock readings, and
+//! the cfg-guarded access markers) is an event: the thread announces it, the scheduler
+//! decides who runs next, the real operation is performed, the result is logged.
+//!
+//! stdin:  program blocks
+//!     P <id> <cap> <class> <parallelism>
+//!     T <tid> <op> ; <op> ; ...
+//!     S <schedule spec>            (one execution per S line)
+//!     E
+//! schedule spec:  "seq"                       run each thread until it blocks / yields, round robin
+//!                 "pre <step>:<tid> ..."      like seq, with forced switches at the given global steps
+//!                 "rnd <seed> <permille>"     switch to a random runnable thread with that probability
+//!     options appended: "spur=<n>" spurious wake-up of a parked thread after n scheduling rounds,
+//!                       "tick=<n>" clock advance per Instant::now() (default 1)
+//! stdout: per execution
+//!     X <program id> <schedule spec>
+//!     <step> <tid> <kind> <loc> <a> <b> <ord> <ord2> <result> <file:line>     (events)
+//!     <step> <tid> OPB <op> / <step> <tid> OPE <result>                        (call boundaries)
+//!     R <tid> <results...>    D <tag>...   (per-thread results, drop ledger)
+//!     V ok | V stuck ...
+//!     Z
+use crate::payload::*;
+use futures_core::{Future, Stream};
+use kanal::verif::{acc, Ev, Handler, Kind};
+use kanal::*;
+use std::collections::HashMap;
+use std::fmt::Write as _;
+use std::io::{BufRead, Write};
+use std::pin::Pin;
+use std::sync::atomic::{AtomicUsize, Ordering};
+use std::sync::{Arc, Condvar, Mutex};
+use std::task::{Context, Poll, RawWaker, RawWakerVTable, Waker};
+use std::time::Duration;
+
+#[derive(Clone, Copy, PartialEq, Debug)]
+enum TS {
+    NotStarted,
+    Runnable,
+    Parked,
+    Done,
+}
+
+#[derive(Clone)]
+enum Policy {
+    Seq,
+    Pre(Vec<(u64, usize)>),
+    Rnd(u64, u64),
+}
+
+struct Sched {
+    state: Vec<TS>,
+    ptoken: Vec<bool>,
+    current: usize,
+    trace: String,
+    clock: u64,
+    tick: u64,
+    steps: u64,
+    policy: Policy,
+    rng: u64,
+    spur: u64,
+    parked_rounds: Vec<u64>,
+    stuck: bool,
+    /// live signals: (start, end, id, publisher)
+    sigs: Vec<(usize, usize, usize)>,
+    next_sig: usize,
+    locks: HashMap<usize, usize>,
+    active: bool,
+    limit: u64,
+    overrun: bool,
+    /// (thread, step): the thread is not scheduled before that global step unless nobody else can run
+    hold: Vec<(usize, u64)>,
+}
+
+static SCHED: Mutex<Option<Sched>> = Mutex::new(None);
+static CV: Condvar = Condvar::new();
+pub static PAR: AtomicUsize = AtomicUsize::new(4);
+
+const NONE: usize = usize::MAX;
+
+impl Sched {
+    fn held(&self, i: usize) -> bool {
+        self.hold.iter().any(|(t, until)| *t == i && self.steps < *until)
+    }
+    fn runnable(&self) -> Vec<usize> {
+        let r: Vec<usize> = (0..self.state.len()).filter(|&i| self.state[i] == TS::Runnable && !self.held(i)).collect();
+        if r.is_empty() {
+            (0..self.state.len()).filter(|&i| self.state[i] == TS::Runnable).collect()
+        } else {
+            r
+        }
+    }
+    fn rand(&mut self) -> u64 {
+        self.rng ^= self.rng << 13;
+        self.rng ^= self.rng >> 7;
+        self.rng ^= self.rng << 17;
+        self.rng
+    }
+    fn next_rr(&self, t: usize) -> Option<usize> {
+        let n = self.state.len();
+        for d in 1..=n {
+            let c = (t + d) % n;
+            if self.state[c] == TS::Runnable && !self.held(c) {
+                return Some(c);
+            }
+        }
+        for d in 1..=n {
+            let c = (t + d) % n;
+            if self.state[c] == TS::Runnable {
+                return Some(c);
+            }
+        }
+        None
+    }
+    /// who runs next, at a scheduling point of running thread t about to perform an event of kind k
+    fn choose(&mut self, t: usize, k: Kind) -> usize {
+        let step = self.steps;
+        match self.policy.clone() {
+            Policy::Pre(list) => {
+                for (s, to) in list {
+                    if s == step && to < self.state.len() && self.state[to] == TS::Runnable {
+                        return to;
+                    }
+                }
+            }
+            Policy::Rnd(_, permille) => {
+                if self.rand() % 1000 < permille {
+                    let r = self.runnable();
+                    if !r.is_empty() {
+                        let i = (self.rand() as usize) % r.len();
+                        return r[i];
+                    }
+                }
+            }
+            Policy::Seq => {}
+        }
+        // cooperative default: a thread that yields / sleeps lets the next runnable thread go
+        if matches!(k, Kind::Yield | Kind::Sleep) {
+            if let Some(c) = self.next_rr(t) {
+                return c;
+            }
+        }
+        t
+    }
+    fn loc_of(&mut self, ev: &Ev) -> String {
+        match ev.kind {
+            Kind::Access => match self.sig_of(ev.addr) {
+                Some(id) => format!("S{}", id),
+                None => "S?".to_string(),
+            },
+            Kind::Load | Kind::Store | Kind::Cas => {
+                if ev.width == 1 {
+                    let n = self.locks.len();
+                    let id = *self.locks.entry(ev.addr).or_insert(n);
+                    format!("L{}", id)
+                } else {
+                    match self.sig_of(ev.addr) {
+                        Some(id) => format!("S{}", id),
+                        None => "S?".to_string(),
+                    }
+                }
+            }
+            _ => "-".to_string(),
+        }
+    }
+    fn sig_of(&self, addr: usize) -> Option<usize> {
+        self.sigs.iter().rev().find(|(s, e, _)| addr >= *s && addr < *e).map(|x| x.2)
+    }
+}
+
+fn kind_name(k: Kind) -> &'static str {
+    match k {
+        Kind::Load => "LOAD",
+        Kind::Store => "STORE",
+        Kind::Cas => "CAS",
+        Kind::Fence => "FENCE",
+        Kind::Park => "PARK",
+        Kind::Unpark => "UNPARK",
+        Kind::Yield => "YIELD",
+        Kind::Sleep => "SLEEP",
+        Kind::Now => "NOW",
+        Kind::Access => "ACC",
+    }
+}
+
+fn acc_name(a: u64) -> &'static str {
+    match a as u8 {
+        acc::CS_ENTER => "cs_enter",
+        acc::SLOT_READ => "slot_read",
+        acc::SLOT_WRITE => "slot_write",
+        acc::WAKER_READ => "waker_read",
+        acc::WAKER_WRITE => "waker_write",
+        acc::SIG_PUBLISH => "publish",
+        acc::SIG_END => "end",
+        acc::WAKE_CALL => "wake_call",
+        acc::CS_EXIT => "cs_exit",
+        acc::WAKER_KIND => "waker_kind",
+        acc::CLAIM => "claim",
+        acc::CANCEL_OK => "cancel_ok",
+        acc::CANCEL_FAIL => "cancel_fail",
+        acc::STILL_LISTED => "still_listed",
+        acc::NOT_LISTED => "not_listed",
+        _ => "other",
+    }
+}
+
+/// block until thread t is the current one
+fn wait_turn<'a>(mut g: std::sync::MutexGuard<'a, Option<Sched>>, t: usize) -> std::sync::MutexGuard<'a, Option<Sched>> {
+    while g.as_ref().map(|s| s.current != t && !s.stuck).unwrap_or(false) {
+        g = CV.wait(g).unwrap();
+    }
+    g
+}
+
+fn hand_over(s: &mut Sched, to: usize) {
+    s.current = to;
+    CV.notify_all();
+}
+
+/// the running thread t cannot go on (parked without token, or finished): pick someone else
+fn yield_blocked(s: &mut Sched, t: usize) {
+    // spurious wake-ups: a parked thread may be chosen although nobody unparked it
+    if let Some(c) = s.next_rr(t) {
+        hand_over(s, c);
+        return;
+    }
+    if s.spur > 0 {
+        // nobody is runnable: wake a parked thread spuriously if the schedule allows it
+        if let Some(p) = (0..s.state.len()).find(|&i| s.state[i] == TS::Parked) {
+            s.spur -= 1;
+            s.state[p] = TS::Runnable;
+            let _ = writeln!(s.trace, "{} {} SPURIOUS - 0 0 - - 0 -", s.steps, p);
+            hand_over(s, p);
+            return;
+        }
+    }
+    if s.state.iter().all(|x| *x == TS::Done) {
+        hand_over(s, NONE);
+        return;
+    }
+    // every live thread is parked and nobody can wake them: the execution is stuck
+    s.stuck = true;
+    s.current = NONE;
+    CV.notify_all();
+}
+
+pub struct SchedHandler;
+
+impl Handler for SchedHandler {
+    fn op(&self, vtid: Option<usize>, ev: &Ev, perform: &mut dyn FnMut() -> u64) -> u64 {
+        let Some(t) = vtid else { return perform() };
+        let mut g = SCHED.lock().unwrap();
+        if g.as_ref().map(|s| !s.active || s.stuck).unwrap_or(true) {
+            drop(g);
+            // outside an execution (tear-down): no scheduling
+            return match ev.kind {
+                Kind::Park | Kind::Unpark | Kind::Yield | Kind::Sleep | Kind::Now => 0,
+                _ => perform(),
+            };
+        }
+        let my_step;
+        {
+            let s = g.as_mut().unwrap();
+            s.steps += 1;
+            my_step = s.steps;
+            if s.steps > s.limit {
+                s.overrun = true;
+                s.stuck = true;
+                s.current = NONE;
+                CV.notify_all();
+            } else {
+                let next = s.choose(t, ev.kind);
+                if next != t {
+                    hand_over(s, next);
+                }
+            }
+        }
+        g = wait_turn(g, t);
+        if g.as_ref().unwrap().stuck {
+            drop(g);
+            // abandon the execution: let the thread run to completion without the scheduler
+            return match ev.kind {
+                Kind::Park => {
+                    std::thread::sleep(Duration::from_millis(1));
+                    0
+                }
+                Kind::Unpark | Kind::Yield | Kind::Sleep | Kind::Now => 0,
+                _ => perform(),
+            };
+        }
+        let s = g.as_mut().unwrap();
+        let step = my_step;
+        let loc = s.loc_of(ev);
+        let mut res: u64 = 0;
+        match ev.kind {
+            Kind::Park => {
+                if s.ptoken[t] {
+                    s.ptoken[t] = false;
+                    res = 1;
+                } else {
+                    s.state[t] = TS::Parked;
+                    yield_blocked(s, t);
+                    g = wait_turn(g, t);
+                    let s = g.as_mut().unwrap();
+                    if s.stuck {
+                        let _ = writeln!(s.trace, "{} {} PARK - 0 0 - - 2 {}:{}", step, t, ev.file, ev.line);
+                        drop(g);
+                        return 0;
+                    }
+                    res = if s.ptoken[t] { 1 } else { 0 };
+                    s.ptoken[t] = false;
+                }
+            }
+            Kind::Unpark => {
+                let tgt = ev.a as usize;
+                if tgt < s.state.len() {
+                    s.ptoken[tgt] = true;
+                    if s.state[tgt] == TS::Parked {
+                        s.state[tgt] = TS::Runnable;
+                    }
+                }
+            }
+            Kind::Now => {
+                res = s.clock;
+                s.clock += s.tick;
+            }
+            Kind::Yield => {}
+            Kind::Sleep => {
+                s.clock += ev.a.min(1_000_000);
+            }
+            Kind::Access => {
+                let what = ev.a as u8;
+                if what == acc::SIG_PUBLISH {
+                    let id = s.next_sig;
+                    s.next_sig += 1;
+                    s.sigs.retain(|(st, en, _)| !(ev.addr < *en && ev.addr + (ev.b as usize).max(1) > *st));
+                    s.sigs.push((ev.addr, ev.addr + (ev.b as usize).max(1), id));
+                }
+            }
+            _ => {
+                res = perform();
+            }
+        }
+        let s = g.as_mut().unwrap();
+        let loc = if ev.kind == Kind::Access && ev.a as u8 == acc::SIG_PUBLISH { s.loc_of(ev) } else { loc };
+        let (a, b) = match ev.kind {
+            Kind::Access => (acc_name(ev.a).to_string(), ev.b.to_string()),
+            _ => (ev.a.to_string(), ev.b.to_string()),
+        };
+        let f = ev.file.rsplit('/').next().unwrap_or(ev.file);
+        let _ = writeln!(s.trace, "{} {} {} {} {} {} {} {} {} {}:{}", step, t, kind_name(ev.kind), loc, a, b, ev.ord, ev.ord2, res, f, ev.line);
+        if ev.kind == Kind::Access && ev.a as u8 == acc::SIG_END {
+            let addr = ev.addr;
+            s.sigs.retain(|(st, _, _)| *st != addr);
+        }
+        res
+    }
+    fn parallelism(&self) -> Option<usize> {
+        Some(PAR.load(Ordering::Relaxed))
+    }
+    fn virtual_time(&self) -> bool {
+        true
+    }
+}
+
+/// harness-level trace line (call boundaries, waker invocations)
+fn note(t: usize, what: &str) {
+    let mut g = SCHED.lock().unwrap();
+    if let Some(s) = g.as_mut() {
+        let step = s.steps;
+        let _ = writeln!(s.trace, "{} {} {}", step, t, what);
+    }
+}
+
+// ---------- wakers: identity = id; wake() is logged with the waking thread ----------
+fn vt_clone(p: *const ()) -> RawWaker {
+    RawWaker::new(p, &VTABLE)
+}
+fn vt_wake(p: *const ()) {
+    let t = kanal::verif::vtid().unwrap_or(99);
+    note(t, &format!("WAKE {}", p as usize));
+}
+fn vt_drop(_p: *const ()) {}
+static VTABLE: RawWakerVTable = RawWakerVTable::new(vt_clone, vt_wake, vt_wake, vt_drop);
+fn mk_waker(id: usize) -> Waker {
+    unsafe { Waker::from_raw(RawWaker::new(id as *const (), &VTABLE)) }
+}
+
+// ---------- drop ledger shared by all threads ----------
+static LEDGER: Mutex<Vec<(usize, Option<u32>)>> = Mutex::new(Vec::new());
+
+pub trait Tagged: Sized + Send + 'static {
+    fn mk(tag: u32) -> Self;
+    fn tag(&self) -> Option<u32>;
+    fn disarm(self);
+}
+
+macro_rules! h2_payload {
+    ($name:ident, $inner:ty) => {
+        pub struct $name($inner, bool);
+        impl Drop for $name {
+            fn drop(&mut self) {
+                if self.1 {
+                    let t = kanal::verif::vtid().unwrap_or(99);
+                    LEDGER.lock().unwrap().push((t, self.0.tag()));
+                }
+            }
+        }
+        impl Tagged for $name {
+            fn mk(tag: u32) -> Self {
+                $name(<$inner as Payload>::mk(tag), true)
+            }
+            fn tag(&self) -> Option<u32> {
+                self.0.tag()
+            }
+            fn disarm(mut self) {
+                self.1 = false;
+            }
+        }
+    };
+}
+
+/// plain-data inner payloads (no drop glue of their own): the wrapper reports the drop
+pub struct I4(u32);
+pub struct I8(u32, u32);
+pub struct I32(u32, [u64; 3]);
+impl I4 {
+    fn tag(&self) -> Option<u32> {
+        Some(self.0)
+    }
+}
+impl I8 {
+    fn tag(&self) -> Option<u32> {
+        if self.1 == !self.0 {
+            Some(self.0)
+        } else {
+            Some(0xdead_0000)
+        }
+    }
+}
+impl I32 {
+    fn tag(&self) -> Option<u32> {
+        if self.1 == [self.0 as u64 ^ 0x5555, !(self.0 as u64), (self.0 as u64) << 9] {
+            Some(self.0)
+        } else {
+            Some(0xdead_0002)
+        }
+    }
+}
+trait Payload {
+    fn mk(tag: u32) -> Self;
+}
+impl Payload for I4 {
+    fn mk(t: u32) -> Self {
+        I4(t)
+    }
+}
+impl Payload for I8 {
+    fn mk(t: u32) -> Self {
+        I8(t, !t)
+    }
+}
+impl Payload for I32 {
+    fn mk(t: u32) -> Self {
+        I32(t, [t as u64 ^ 0x5555, !(t as u64), (t as u64) << 9])
+    }
+}
+// sizes: H4 = 8 bytes (u32 + flag, = pointer size), H8 = 12 (> pointer), H32 = 40; HS = 2 bytes (< pointer)
+pub struct I1(u8);
+impl I1 {
+    fn tag(&self) -> Option<u32> {
+        Some(self.0 as u32)
+    }
+}
+impl Payload for I1 {
+    fn mk(t: u32) -> Self {
+        I1(t as u8)
+    }
+}
+h2_payload!(HS, I1);
+h2_payload!(H4, I4);
+h2_payload!(H8, I8);
+h2_payload!(H32, I32);
+
+enum Fut<T: 'static> {
+    Send(Pin<Box<SendFuture<'static, T>>>),
+    Recv(Pin<Box<ReceiveFuture<'static, T>>>),
+    Stream(Pin<Box<ReceiveStream<'static, T>>>),
+}
+
+struct ThreadCtx<T: Tagged> {
+    tid: usize,
+    s: Option<Box<Sender<T>>>,
+    r: Option<Box<Receiver<T>>>,
+    futs: HashMap<u32, Fut<T>>,
+    results: Vec<String>,
+}
+
+fn tagstr(t: Option<u32>) -> String {
+    match t {
+        Some(t) => t.to_string(),
+        None => "_".into(),
+    }
+}
+
+impl<T: Tagged> ThreadCtx<T> {
+    fn exec(&mut self, op: &str) -> String {
+        let f: Vec<&str> = op.split_whitespace().collect();
+        let p = |i: usize| -> u32 { f.get(i).and_then(|x| x.parse().ok()).unwrap_or(0) };
+        let take = |v: T| -> String {
+            let t = v.tag();
+            v.disarm();
+            tagstr(t)
+        };
+        macro_rules! sender {
+            () => {
+                match &self.s {
+                    Some(s) => s,
+                    None => return "nohandle".into(),
+                }
+            };
+        }
+        macro_rules! receiver {
+            () => {
+                match &self.r {
+                    Some(r) => r,
+                    None => return "nohandle".into(),
+                }
+            };
+        }
+        match f[0] {
+            "send" => match sender!().send(T::mk(p(1))) {
+                Ok(()) => "ok".into(),
+                Err(SendError::Closed) => "err:closed".into(),
+                Err(SendError::ReceiveClosed) => "err:recvclosed".into(),
+            },
+            "sendto" => match sender!().send_timeout(T::mk(p(1)), Duration::from_nanos(p(2) as u64)) {
+                Ok(()) => "ok".into(),
+                Err(SendErrorTimeout::Closed) => "err:closed".into(),
+                Err(SendErrorTimeout::ReceiveClosed) => "err:recvclosed".into(),
+                Err(SendErrorTimeout::Timeout) => "err:timeout".into(),
+            },
+            "sendoptto" => {
+                let mut o = Some(T::mk(p(1)));
+                let r = sender!().send_option_timeout(&mut o, Duration::from_nanos(p(2) as u64));
+                let back = match o {
+                    Some(v) => format!(" back:{}", take(v)),
+                    None => String::new(),
+                };
+                match r {
+                    Ok(()) => format!("ok{}", back),
+                    Err(SendErrorTimeout::Closed) => format!("err:closed{}", back),
+                    Err(SendErrorTimeout::ReceiveClosed) => format!("err:recvclosed{}", back),
+                    Err(SendErrorTimeout::Timeout) => format!("err:timeout{}", back),
+                }
+            }
+            "trysend" | "trysendrt" => {
+                let v = T::mk(p(1));
+                let r = if f[0] == "trysend" { sender!().try_send(v) } else { sender!().try_send_realtime(v) };
+                match r {
+                    Ok(b) => format!("ok:{}", b),
+                    Err(SendError::Closed) => "err:closed".into(),
+                    Err(SendError::ReceiveClosed) => "err:recvclosed".into(),
+                }
+            }
+            "recv" => match receiver!().recv() {
+                Ok(v) => format!("ok:{}", take(v)),
+                Err(ReceiveError::Closed) => "err:closed".into(),
+                Err(ReceiveError::SendClosed) => "err:sendclosed".into(),
+            },
+            "recvto" => match receiver!().recv_timeout(Duration::from_nanos(p(1) as u64)) {
+                Ok(v) => format!("ok:{}", take(v)),
+                Err(ReceiveErrorTimeout::Closed) => "err:closed".into(),
+                Err(ReceiveErrorTimeout::SendClosed) => "err:sendclosed".into(),
+                Err(ReceiveErrorTimeout::Timeout) => "err:timeout".into(),
+            },
+            "tryrecv" | "tryrecvrt" => {
+                let r = if f[0] == "tryrecv" { receiver!().try_recv() } else { receiver!().try_recv_realtime() };
+                match r {
+                    Ok(Some(v)) => format!("ok:some:{}", take(v)),
+                    Ok(None) => "ok:none".into(),
+                    Err(ReceiveError::Closed) => "err:closed".into(),
+                    Err(ReceiveError::SendClosed) => "err:sendclosed".into(),
+                }
+            }
+            "drain" => {
+                let mut v: Vec<T> = Vec::with_capacity(p(1) as usize);
+                let r = receiver!().drain_into(&mut v);
+                let tags: Vec<String> = v.drain(..).map(|x| take(x)).collect();
+                match r {
+                    Ok(n) => format!("drain:{}:[{}]", n, tags.join(",")),
+                    Err(_) => format!("err:closed:[{}]", tags.join(",")),
+                }
+            }
+            "close" => {
+                let r = match (&self.s, &self.r) {
+                    (Some(s), _) => s.close(),
+                    (_, Some(r)) => r.close(),
+                    _ => return "nohandle".into(),
+                };
+                if r.is_ok() { "ok".into() } else { "err:closed".into() }
+            }
+            "drops" => {
+                self.s = None;
+                "unit".into()
+            }
+            "dropr" => {
+                self.r = None;
+                "unit".into()
+            }
+            "clones" => {
+                // clone through the async flavour and drop the original: conversions in the concurrent setting
+                if let Some(s) = self.s.take() {
+                    let a = s.clone_async();
+                    drop(s);
+                    self.s = Some(Box::new(a.to_sync()));
+                }
+                "unit".into()
+            }
+            "len" => format!("n:{}", match (&self.s, &self.r) {
+                (Some(s), _) => s.len(),
+                (_, Some(r)) => r.len(),
+                _ => 0,
+            }),
+            "scount" => format!("n:{}", match (&self.s, &self.r) {
+                (Some(s), _) => s.sender_count(),
+                (_, Some(r)) => r.sender_count(),
+                _ => 0,
+            }),
+            "rcount" => format!("n:{}", match (&self.s, &self.r) {
+                (Some(s), _) => s.receiver_count(),
+                (_, Some(r)) => r.receiver_count(),
+                _ => 0,
+            }),
+            "isclosed" => format!("b:{}", match (&self.s, &self.r) {
+                (Some(s), _) => s.is_closed(),
+                (_, Some(r)) => r.is_closed(),
+                _ => false,
+            }),
+            "mksend" => {
+                let s = sender!();
+                let a: &'static AsyncSender<T> = unsafe { &*(s.as_async() as *const AsyncSender<T>) };
+                self.futs.insert(p(1), Fut::Send(Box::pin(a.send(T::mk(p(2))))));
+                "unit".into()
+            }
+            "mkrecv" | "mkstream" => {
+                let r = receiver!();
+                let a: &'static AsyncReceiver<T> = unsafe { &*(r.as_async() as *const AsyncReceiver<T>) };
+                let fut = if f[0] == "mkrecv" { Fut::Recv(Box::pin(a.recv())) } else { Fut::Stream(Box::pin(a.stream())) };
+                self.futs.insert(p(1), fut);
+                "unit".into()
+            }
+            "poll" => {
+                let w = mk_waker(p(2) as usize);
+                let mut cx = Context::from_waker(&w);
+                let Some(fut) = self.futs.get_mut(&p(1)) else { return "nofuture".into() };
+                match fut {
+                    Fut::Send(x) => match x.as_mut().poll(&mut cx) {
+                        Poll::Pending => "pending".into(),
+                        Poll::Ready(Ok(())) => "ready:ok".into(),
+                        Poll::Ready(Err(SendError::Closed)) => "ready:err:closed".into(),
+                        Poll::Ready(Err(SendError::ReceiveClosed)) => "ready:err:recvclosed".into(),
+                    },
+                    Fut::Recv(x) => match x.as_mut().poll(&mut cx) {
+                        Poll::Pending => "pending".into(),
+                        Poll::Ready(Ok(v)) => format!("ready:ok:{}", take(v)),
+                        Poll::Ready(Err(ReceiveError::Closed)) => "ready:err:closed".into(),
+                        Poll::Ready(Err(ReceiveError::SendClosed)) => "ready:err:sendclosed".into(),
+                    },
+                    Fut::Stream(x) => match x.as_mut().poll_next(&mut cx) {
+                        Poll::Pending => "pending".into(),
+                        Poll::Ready(Some(v)) => format!("some:{}", take(v)),
+                        Poll::Ready(None) => "none".into(),
+                    },
+                }
+            }
+            "dropf" => {
+                self.futs.remove(&p(1));
+                "unit".into()
+            }
+            _ => "badop".into(),
+        }
+    }
+}
+
+fn parse_hold(spec: &str) -> Vec<(usize, u64)> {
+    let mut v = vec![];
+    for x in spec.split_whitespace() {
+        if let Some(r) = x.strip_prefix("hold=") {
+            let mut it = r.split(':');
+            if let (Some(a), Some(b)) = (it.next(), it.next()) {
+                if let (Ok(a), Ok(b)) = (a.parse(), b.parse()) {
+                    v.push((a, b));
+                }
+            }
+        }
+    }
+    v
+}
+
+fn parse_policy(spec: &str) -> (Policy, u64, u64, u64) {
+    let mut spur = 0;
+    let mut tick = 1;
+    let mut seed = 1;
+    let f: Vec<&str> = spec.split_whitespace().collect();
+    let mut pol = Policy::Seq;
+    let mut pre = vec![];
+    let mut i = 0;
+    while i < f.len() {
+        match f[i] {
+            "seq" => pol = Policy::Seq,
+            "pre" => pol = Policy::Pre(vec![]),
+            "rnd" => {
+                seed = f.get(i + 1).and_then(|x| x.parse().ok()).unwrap_or(1);
+                let pm = f.get(i + 2).and_then(|x| x.parse().ok()).unwrap_or(100);
+                pol = Policy::Rnd(seed, pm);
+                i += 2;
+            }
+            x if x.starts_with("spur=") => spur = x[5..].parse().unwrap_or(0),
+            x if x.starts_with("tick=") => tick = x[5..].parse().unwrap_or(1),
+            x if x.starts_with("hold=") => {}
+            x if x.contains(':') => {
+                let mut it = x.split(':');
+                if let (Some(a), Some(b)) = (it.next(), it.next()) {
+                    if let (Ok(a), Ok(b)) = (a.parse(), b.parse()) {
+                        pre.push((a, b));
+                    }
+                }
+            }
+            _ => {}
+        }
+        i += 1;
+    }
+    if let Policy::Pre(_) = pol {
+        pol = Policy::Pre(pre);
+    }
+    (pol, spur, tick, seed)
+}
+
+fn run_one<T: Tagged>(pid: &str, cap: &str, threads: &[(usize, Vec<String>)], spec: &str, out: &mut impl Write) -> bool {
+    let n = threads.len();
+    let (pol, spur, tick, seed) = parse_policy(spec);
+    LEDGER.lock().unwrap().clear();
+    {
+        let mut g = SCHED.lock().unwrap();
+        *g = Some(Sched {
+            state: vec![TS::NotStarted; n],
+            ptoken: vec![false; n],
+            current: NONE,
+            trace: String::new(),
+            clock: 0,
+            tick,
+            steps: 0,
+            policy: pol,
+            rng: seed.wrapping_mul(0x9E3779B97F4A7C15) | 1,
+            spur,
+            parked_rounds: vec![0; n],
+            stuck: false,
+            sigs: vec![],
+            next_sig: 0,
+            locks: HashMap::new(),
+            active: true,
+            limit: 200_000,
+            overrun: false,
+            hold: parse_hold(spec),
+        });
+    }
+    let (s0, r0) = if cap == "U" { unbounded::<T>() } else { bounded::<T>(cap.parse().unwrap()) };
+    let results: Arc<Mutex<Vec<(usize, Vec<String>)>>> = Arc::new(Mutex::new(vec![]));
+    let mut joins = vec![];
+    for (tid, ops) in threads.iter().cloned() {
+        let s = s0.clone();
+        let r = r0.clone();
+        let results = results.clone();
+        joins.push(std::thread::spawn(move || {
+            kanal::verif::set_vtid(Some(tid));
+            let mut ctx = ThreadCtx::<T> { tid, s: Some(Box::new(s)), r: Some(Box::new(r)), futs: HashMap::new(), results: vec![] };
+            // wait for the first turn
+            {
+                let mut g = SCHED.lock().unwrap();
+                g.as_mut().unwrap().state[tid] = TS::Runnable;
+                CV.notify_all();
+                g = wait_turn(g, tid);
+                drop(g);
+            }
+            for op in ops.iter() {
+                note(tid, &format!("OPB {}", op));
+                let r = ctx.exec(op);
+                note(tid, &format!("OPE {}", r));
+                ctx.results.push(r);
+            }
+            // futures and handles of this thread go away, still under the scheduler
+            note(tid, "OPB teardown");
+            let mut ks: Vec<u32> = ctx.futs.keys().copied().collect();
+            ks.sort();
+            for k in ks {
+                ctx.futs.remove(&k);
+            }
+            ctx.s = None;
+            ctx.r = None;
+            note(tid, "OPE unit");
+            results.lock().unwrap().push((tid, ctx.results.clone()));
+            let mut g = SCHED.lock().unwrap();
+            let s = g.as_mut().unwrap();
+            s.state[tid] = TS::Done;
+            if !s.stuck {
+                yield_blocked(s, tid);
+            }
+            drop(g);
+            kanal::verif::set_vtid(None);
+        }));
+    }
+    // the original handles are dropped by the (unmanaged) main thread before the run starts,
+    // so that only the threads' clones keep the sides alive
+    {
+        // wait until every thread registered
+        let mut g = SCHED.lock().unwrap();
+        while g.as_ref().unwrap().state.iter().any(|x| *x == TS::NotStarted) {
+            g = CV.wait(g).unwrap();
+        }
+        drop(g);
+    }
+    drop(s0);
+    drop(r0);
+    {
+        let mut g = SCHED.lock().unwrap();
+        let s = g.as_mut().unwrap();
+        hand_over(s, 0);
+        // wait for the end of the execution: everybody done, or stuck
+        while !g.as_ref().unwrap().stuck && !g.as_ref().unwrap().state.iter().all(|x| *x == TS::Done) {
+            let (g2, to) = CV.wait_timeout(g, Duration::from_secs(20)).unwrap();
+            g = g2;
+            if to.timed_out() {
+                let s = g.as_mut().unwrap();
+                s.stuck = true;
+                s.overrun = true;
+                s.current = NONE;
+                CV.notify_all();
+            }
+        }
+    }
+    let (stuck, overrun, trace, states) = {
+        let g = SCHED.lock().unwrap();
+        let s = g.as_ref().unwrap();
+        (s.stuck, s.overrun, s.trace.clone(), s.state.clone())
+    };
+    writeln!(out, "X {} {} | {}", pid, cap, spec).unwrap();
+    out.write_all(trace.as_bytes()).unwrap();
+    if stuck {
+        let who: Vec<String> = states.iter().enumerate().filter(|(_, s)| **s != TS::Done).map(|(i, s)| format!("{}:{:?}", i, s)).collect();
+        writeln!(out, "V {} {}", if overrun { "overrun" } else { "stuck" }, who.join(" ")).unwrap();
+        writeln!(out, "Z").unwrap();
+        out.flush().unwrap();
+        // threads of a stuck execution cannot be joined: the process ends here
+        return false;
+    }
+    for j in joins {
+        let _ = j.join();
+    }
+    {
+        let mut g = SCHED.lock().unwrap();
+        g.as_mut().unwrap().active = false;
+    }
+    let mut res = results.lock().unwrap().clone();
+    res.sort();
+    for (tid, r) in res {
+        writeln!(out, "R {} {}", tid, r.join(" | ")).unwrap();
+    }
+    let led = LEDGER.lock().unwrap().clone();
+    writeln!(out, "D {}", led.iter().map(|(t, x)| format!("{}@{}", tagstr(*x), t)).collect::<Vec<_>>().join(" ")).unwrap();
+    writeln!(out, "V ok").unwrap();
+    writeln!(out, "Z").unwrap();
+    true
+}
+
 pub fn main(_args: &[String]) {
-    eprintln!("h2 not built yet");
-    std::process::exit(2);
+    kanal::verif::install(Box::new(SchedHandler));
+    if let Ok(p) = std::env::var("KV_PARALLELISM") {
+        if let Ok(p) = p.parse::<usize>() {
+            PAR.store(p, Ordering::Relaxed);
+        }
+    }
+    let stdin = std::io::stdin();
+    let stdout = std::io::stdout();
+    let mut out = std::io::BufWriter::new(stdout.lock());
+    let mut head: Option<(String, String, String)> = None;
+    let mut threads: Vec<(usize, Vec<String>)> = vec![];
+    for line in stdin.lock().lines() {
+        let line = line.unwrap();
+        let line = line.trim();
+        if line.is_empty() {
+            continue;
+        }
+        if let Some(rest) = line.strip_prefix("P ") {
+            let f: Vec<&str> = rest.split_whitespace().collect();
+            head = Some((f[0].to_string(), f[1].to_string(), f[2].to_string()));
+            threads.clear();
+        } else if let Some(rest) = line.strip_prefix("T ") {
+            let (tid, ops) = rest.split_once(' ').unwrap_or((rest, ""));
+            let ops: Vec<String> = ops.split(';').map(|s| s.trim().to_string()).filter(|s| !s.is_empty()).collect();
+            threads.push((tid.parse().unwrap(), ops));
+        } else if let Some(spec) = line.strip_prefix("S ") {
+            let (pid, cap, cls) = head.clone().unwrap();
+            let ok = match cls.as_str() {
+                "hs" => run_one::<HS>(&pid, &cap, &threads, spec, &mut out),
+                "h4" => run_one::<H4>(&pid, &cap, &threads, spec, &mut out),
+                "h8" => run_one::<H8>(&pid, &cap, &threads, spec, &mut out),
+                _ => run_one::<H32>(&pid, &cap, &threads, spec, &mut out),
+            };
+            out.flush().unwrap();
+            if !ok {
+                // a stuck execution leaves blocked threads behind: stop this process, the driver restarts after it
+                std::process::exit(7);
+            }
+        }
+    }
 }
